@@ -1,7 +1,8 @@
 use crate::fw::Check;
 
+pub mod c02_ref;
 pub mod c23_bloom;
 
 pub fn registry() -> Vec<Box<dyn Check>> {
-    vec![Box::new(c23_bloom::C23)]
+    vec![Box::new(c02_ref::C02), Box::new(c23_bloom::C23)]
 }
